@@ -75,6 +75,7 @@ class Ctx:
         self.nontrivial = False
         self.n_excluded = 0
         self.counters = {}
+        self.unique = False  # set for enumerated cases: distinct by construction, no hashing needed
 
     def fail(self, signature, message):
         if signature in self.excluded:
@@ -116,6 +117,8 @@ def guarded(ctx, what, fn, *a, allowed=(), **kw):
         return e
     except Exception as e:
         fr = sut_frame(e)
+        if type(e).__name__ == "LayoutMismatch":
+            fr = "layout"
         if fr is None and not _from_backend(e):
             raise
         sig = f"crash:{what}:{type(e).__name__}:{fr}"
@@ -170,6 +173,7 @@ class Stats:
         self.excluded = 0
         self.first = []
         self.last = []
+        self.unique_nontrivial = 0
 
     def record(self, case, ctx):
         self.evaluations += 1
@@ -178,7 +182,13 @@ class Stats:
         for k, v in ctx.counters.items():
             self.counters[k] = self.counters.get(k, 0) + v
         self.excluded += ctx.n_excluded
-        if ctx.nontrivial:
+        if ctx.nontrivial and ctx.unique:
+            self.unique_nontrivial += 1
+            if len(self.first) < 2:
+                self.first.append(case)
+            elif self.unique_nontrivial % 1000 == 0:
+                self.last = [case]
+        elif ctx.nontrivial:
             h = sha(case)
             if h not in self.nontrivial_hashes:
                 self.nontrivial_hashes.add(h)
@@ -195,6 +205,7 @@ class Stats:
         for l, c in other.counters.items():
             self.counters[l] = self.counters.get(l, 0) + c
         self.excluded += other.excluded
+        self.unique_nontrivial += other.unique_nontrivial
         if len(self.first) < 2:
             self.first = (self.first + other.first)[:2]
         if other.last:
@@ -251,6 +262,7 @@ def _enumerated_shard(mod, tier, seed, shard, nshards, excluded):
     excluded = set(excluded)
     for case in mod.enumerate_cases(tier, seed, shard, nshards):
         ctx = Ctx(excluded)
+        ctx.unique = True
         try:
             mod.check_case(case, ctx)
         except Violation as v:
@@ -325,7 +337,7 @@ def run_property(prop, tier, seed, workers=None, examples=None, shrink=None):
         lines.append(f"VIOLATION property={prop} replay={path}")
         lines.append(f"  signature={sig}")
         lines.append(f"  {msg[:600]}")
-    n_nontrivial = len(total.nontrivial_hashes)
+    n_nontrivial = len(total.nontrivial_hashes) + total.unique_nontrivial
     write_evidence(mod, prop, tier, seed, total, n_nontrivial, wall, len(by_sig), nshards, errors)
     for l in lines:
         print(l)
